@@ -3,6 +3,9 @@
 #define private public
 #include <nstd/String.hpp>
 #include <String.codecs.slice.cpp> // defines String::emptyData (verbatim line of src/String.cpp)
+#ifdef NV_CASEMAP
+#include <String.tables.slice.cpp> // String::lowerCaseMap / upperCaseMap (verbatim lines of src/String.cpp)
+#endif
 #undef private
 #include "nvh.h"
 
@@ -762,8 +765,8 @@ void h_compare_str()
 
 
 // -------------------------------------------------------------- replace(char needle, char replacement)  (loop contract)
-// The scan is C-string based (stops at the first NUL).  For every position k: the byte is either
-// unchanged or (it was the needle and is now) the replacement; length, other handles, ledger as usual.
+// For every position k < length(): the byte is the replacement if it was the needle, unchanged
+// otherwise; length, other handles, ledger as usual.
 char g_orig; char g_needle, g_repl;
 bool post_replace(const String* a)
 {
@@ -771,7 +774,7 @@ bool post_replace(const String* a)
   const String::Data* d = a->data;
   if(d->len != g_exp_len || d->str[d->len] != 0) return false;
   if(g_exp_has && g_k < d->len && NV_OFFSET(d->str) + g_k == g_woff &&
-     !(d->str[g_k] == g_orig || (g_orig == g_needle && d->str[g_k] == g_repl))) return false;
+     d->str[g_k] != (g_orig == g_needle ? g_repl : g_orig)) return false; // EVERY byte is mapped (reference byte string)
   return post_old_block(a) && post_other_handle();
 }
 void h_replace_char()
@@ -794,5 +797,51 @@ void h_replace_char()
   teardown(a, b, P);
   delete[] P.foreign;
 }
+
+#ifdef NV_CASEMAP
+// ============================================================== case mapping / replace(char, char) against the reference byte string
+// reference model: a byte string of n bytes (ANY byte values, NUL included); case mapping is the
+// ASCII one ('A'..'Z' <-> 'a'..'z', every other byte value fixed) applied to EVERY byte; replace
+// maps every byte equal to the needle.  A copy taken before must keep the old bytes.
+// Split: casemap_table proves the two tables equal the ASCII maps (all 256 values, no DFCC, real
+// initialisers); the bounded units prove byte k of the result == table[byte k of the input].
+#define SPEC_LOWER(c) (((c) >= 'A' && (c) <= 'Z') ? (char)((c) + 32) : (c))
+#define SPEC_UPPER(c) (((c) >= 'a' && (c) <= 'z') ? (char)((c) - 32) : (c))
+void h_casemap_table()
+{ // loop-free: all 256 byte values
+  NV_INPUT(char, c);
+  NV_CHECK(String::toLowerCase(c) == SPEC_LOWER(c), "toLowerCase(char) == ASCII lower-case map");
+  NV_CHECK(String::toUpperCase(c) == SPEC_UPPER(c), "toUpperCase(char) == ASCII upper-case map");
+  if(c == 'Q') { NV_REACH("casemap_table.letter"); }
+}
+#ifndef NV_MAPOP
+#define NV_MAPOP 0 /* 0 toLowerCase(), 1 toUpperCase(), 2 replace(needle, replacement) */
+#endif
+void h_b_bytemap()
+{
+  NV_INPUT_ARR(char, bytes, 3); NV_INPUT(usize, n); NV_INPUT(usize, k); NV_INPUT(char, needle); NV_INPUT(char, repl);
+  NV_ASSUME(n <= 3 && k < n);
+  const char ck = bytes[k];
+  g_woff = g_woff2 = HDR + k; // Memory::copy contracts: byte k of every heap block is the watched one
+  String a(&bytes[0], n);
+  String b(a);
+#if NV_MAPOP == 0
+  const char want = String::lowerCaseMap[(unsigned char)ck]; // statics are nondeterministic under DFCC: the table's CONTENT is unit casemap_table
+  String* r = &a.toLowerCase();
+#elif NV_MAPOP == 1
+  const char want = String::upperCaseMap[(unsigned char)ck];
+  String* r = &a.toUpperCase();
+#else
+  const char want = ck == needle ? repl : ck;
+  String* r = &a.replace(needle, repl);
+#endif
+  NV_CHECK(r == &a && a.data->len == n && a.data->str[n] == 0, "byte map: same length, terminated, returns *this");
+  NV_CHECK(a.data->str[k] == want, "byte map: every byte of the string is mapped (reference byte string)");
+  NV_CHECK(b.data->len == n && b.data->str[k] == ck && b.data != a.data, "byte map: a copy taken before keeps its bytes");
+  const char c1 = bytes[1];
+  if(n == 3 && k == 2 && c1 == 0) { NV_REACH("b_bytemap.after_nul"); }
+  if(n == 3 && k == 2 && want != ck) { NV_REACH("b_bytemap.mapped"); }
+}
+#endif
 
 } // extern "C"
